@@ -933,6 +933,7 @@ func (e *Exec) atReturn(fr *Frame, st *State, res []Value, c *Contract) {
 		h(e, fr, st, res)
 	}
 	e.resultIndependence(fr, st, res)
+	e.aoReturn(fr, st, res)
 	if c == nil {
 		return
 	}
